@@ -608,6 +608,54 @@ PROPS["C05"] = {
 }
 
 
+# ---------------------------------------------------------------------------------- C11
+def _c11_nontrivial(sess, real):
+    # a registration made inside a group was observed on the real router, and the program also
+    # uses at least one of Combo / Routes / Any / AutoHead / a recovered panic
+    ops = [l.split()[1] for l in sess if l.startswith("S ") and len(l.split()) > 1]
+    if "group" not in ops:
+        return False
+    if not any(k in ops for k in ("combo", "routes", "any", "autohead", "recover")):
+        return False
+    return any(l.startswith("reg ") for l in real) or sess[0].split()[2:3] == ["x"]
+
+PROPS["C11"] = {
+    "technique": "Lean 4 theorems (stack interpreter of the registration DSL = environment-passing flat expansion, for all "
+                 "programs and all answers of the route-tree layer) + differential correspondence with the real router "
+                 "(program vs flat list of Route calls vs model)",
+    "level_text": "Every clause of C11 is a Lean theorem over Model/Dsl for all registration programs (arbitrarily nested Group with "
+                  "handlers, Combo, Routes, Any, the verb shortcuts, AutoHead, panics recovered by the caller) and every acceptance "
+                  "oracle of the route-tree layer: interp = flat (same registrations in the same order, also before a panic), the group "
+                  "stack is restored, AutoHead only concerns Get while on, Combo refuses a repeated verb, handlers/paths are "
+                  "outer-first. The model is tied to router.go on every run: small-scope exhaustive and random programs run on a real "
+                  "Flame as written and as the harness's own flat list of Route calls (handler slices with spare capacity and shared "
+                  "backing arrays, optional HandlerWrapper), probe requests compare handler trace and params, and the registrations "
+                  "observed on the real router are compared with the model's.",
+    "level_note": "Trusted: Lean kernel; the model is hand-written and tied by differential testing only. 'Same chosen route, handler "
+                  "order and parameters for every request' follows because dispatch is a function of the ordered registration list "
+                  "(C01/C02/C03); the harness additionally serves requests on both routers. Acceptance by the route tree (parse errors, "
+                  "duplicates) is a parameter of every theorem. Models the repaired code for findings F9, F13 and F16.",
+    "props_modules": ["Flamego.Props.C11"],
+    "suite": "C11",
+    "stats": generic_stats(_c11_nontrivial,
+        "sessions = registration programs (all sequences of <=2 [thorough: sampled <=3] items over 6 wrappers x 15 statements, then "
+        "random programs of 1-5 statements nested up to depth 3, then random programs over a rich route syntax); distinct by op text; "
+        "non-trivial = the program has a Group AND at least one of Combo/Routes/Any/AutoHead/recovered panic AND at least one "
+        "registration was observed on the real router (mode m) or it is a rich-syntax program (mode x)"),
+    "known_match": no_known,
+    "trusted_base": COMMON_TRUST + [
+        "parameter, not verified here: the route-tree layer's acceptance of a single registration (parser + AddRoute; property C08) — "
+        "every theorem is quantified over it; the driver instantiates it with the duplicate/short-form rule that is exact for the "
+        "routes the mode-m generator writes, and the comparison checks that instance",
+        "dispatch, handler chain and bind parameters are functions of the ordered registration list (properties C01/C02/C03)",
+        "guard: method strings are ASCII (strings.ToUpper / strings.TrimSpace are modelled on ASCII); handlers are callable funcs "
+        "(the only non-func handler modelled is a string left among the handlers of Routes)",
+        "a Combo is used as one chained expression; a ComboRoute value kept and used in another group scope is outside the program syntax"],
+    "assumptions": ["registration happens on one goroutine before serving (the router has no locking)",
+                    "a failed AddRoute leaves nothing observable behind (finding F11 is repaired separately)"],
+}
+
+
 # ------------------------------------------------------------------- router suites
 import router_props as rp
 
